@@ -186,6 +186,13 @@ def runSpecial (env : Env) (v : Vec) (name : String) (args : List Nat) (o : List
     let r := vecMap env.bombs { st := st, su := su, alignOk := al } v o
     let consumed := match r with | .ok out => (match out.exit with | .panic _ => true | _ => false) | _ => false
     some (pack showUnit r, consumed)
+  | "drain_forget", [s, e] => do
+    let script ← parseScript ((kvOf rest "s").getD "-")
+    -- the leaked `Drain` never runs its `Drop`; for what follows, the slots beyond the length are just spare
+    -- capacity again (their values are leaked, not owned by anybody)
+    let r := (drainForget v s e script).map fun out =>
+      { out with vec := { out.vec with slots := out.vec.slots.take out.vec.len ++ H (out.vec.cap - out.vec.len) } }
+    pure ((pack showYields r).map (fun (a, b, _) => (a, b, o)), false)
   | "extract_if", [calls] => some (pack csv (extractIf v calls o), false)
   | "into_iter", [] => do
     let script ← parseScript ((kvOf rest "s").getD "-")
